@@ -5,9 +5,9 @@ import (
 	"sort"
 
 	anystore "github.com/anyproto/any-store"
-	"github.com/anyproto/lexid"
 	"github.com/anyproto/any-sync/commonspace/object/tree/objecttree"
 	"github.com/anyproto/any-sync/commonspace/object/tree/treechangeproto"
+	"github.com/anyproto/lexid"
 )
 
 // memStorage is an in-memory objecttree.Storage with the semantics of the any-store one
@@ -105,5 +105,8 @@ func (s *memStorage) AddAll(_ context.Context, changes []objecttree.StorageChang
 func (s *memStorage) AddAllNoError(_ context.Context, changes []objecttree.StorageChange, heads []string, snapshot string) error {
 	return s.add(changes, heads, snapshot, true)
 }
-func (s *memStorage) Delete(context.Context) error { s.changes = map[string]objecttree.StorageChange{}; return nil }
-func (s *memStorage) Close() error                 { return nil }
+func (s *memStorage) Delete(context.Context) error {
+	s.changes = map[string]objecttree.StorageChange{}
+	return nil
+}
+func (s *memStorage) Close() error { return nil }
